@@ -98,6 +98,41 @@ func c13Iter(rc *RuleCtx) {
 			rc.bad(cons, f.Pos(), "Next does not move the cursors as start = end+1 and end = next separator / end of path: parts are skipped, repeated or cut")
 		}
 	}
+	// Reset: both cursors go back to where a fresh iterator has them
+	if rf := iterMethod(rc, "Reset"); rf == nil || len(rf.Blocks) == 0 {
+		rc.anchor("avfs.(*PathIterator).Reset")
+	} else {
+		cons := "avfs.(*PathIterator).Reset cursor"
+		startOK, endOK := false, false
+		eachInstr(rf, func(in ssa.Instruction) {
+			st, ok := in.(*ssa.Store)
+			if !ok {
+				return
+			}
+			fa, ok := st.Addr.(*ssa.FieldAddr)
+			if !ok {
+				return
+			}
+			switch fieldName(fa.X.Type(), fa.Field) {
+			case "start":
+				if k, isC := constInt(st.Val); isC && k == 0 {
+					startOK = true
+				}
+			case "end":
+				if isFieldLoad(strip(st.Val), "volumeNameLen") {
+					endOK = true
+				}
+			}
+		})
+		switch {
+		case !endOK:
+			rc.bad(cons, rf.Pos(), "Reset does not put the end cursor back at the end of the volume name")
+		case !startOK:
+			rc.bad(cons, rf.Pos(), "Reset moves the end cursor back but leaves the start cursor where it was: start > end, so Part() slices out of range (and Left + Part + Right no longer reassemble the path) until the next call of Next")
+		default:
+			rc.good(cons, rf.Pos(), "start = 0, end = length of the volume name: the state of a fresh iterator")
+		}
+	}
 	// ReplacePart
 	f := iterMethod(rc, "ReplacePart")
 	if f == nil || len(f.Blocks) == 0 {
